@@ -6,42 +6,54 @@
 (* form.  pairs[i] = [match (sealed with the passphrase being tried), tamper].  *)
 (* Steps follow the implementation: TryLocator(i) in order (a pair that fails  *)
 (* to verify falls through to the next), then DecryptData / VerifyDataMac, and *)
-(* only then Commit (the visible dictionary gains the decrypted entries).       *)
+(* only then Commit (the visible dictionary gains the decrypted entries, which  *)
+(* replace visible entries of the same name).                                  *)
+(* Passphrases are opaque identities: a pair matches iff it was sealed with    *)
+(* exactly the passphrase being tried (sealed = tried), nothing weaker.        *)
+(* The dictionary is a function Keys -> Values: `visible` is what the file     *)
+(* shows in clear (possibly stale copies), `plain` the encrypted configuration.*)
 EXTENDS Integers, Sequences, FiniteSets, TLC
 
-CONSTANTS MaxPairs
+CONSTANTS MaxPairs, Phrases, Keys
 PairTampers == {"none", "iv", "ct", "mac"}
 DataTampers == {"none", "iv", "ct-first", "ct-last", "mac"}
+Absent == "absent"
 
-VARIABLES pairs, dataTamper, i, haveKey, phase, attr
-vars == <<pairs, dataTamper, i, haveKey, phase, attr>>
+VARIABLES pairs, tried, dataTamper, visible, plain, i, haveKey, phase, attr
+vars == <<pairs, tried, dataTamper, visible, plain, i, haveKey, phase, attr>>
 
-Init == /\ pairs \in UNION {[1..k -> [match : BOOLEAN, tamper : PairTampers]] : k \in 1..MaxPairs}
+Init == /\ pairs \in UNION {[1..k -> [sealed : Phrases, tamper : PairTampers]] : k \in 1..MaxPairs}
+        /\ tried \in Phrases
         /\ dataTamper \in DataTampers
-        /\ i = 1 /\ haveKey = FALSE /\ phase = "unsealing" /\ attr = "locked"
+        /\ visible \in [Keys -> {Absent, "stale"}]
+        /\ plain \in [Keys -> {Absent, "real"}]
+        /\ i = 1 /\ haveKey = FALSE /\ phase = "unsealing" /\ attr = visible
 
 \* a pair unlocks iff it was sealed with this passphrase and its blob is intact (MAC over the plaintext + valid padding)
-Unlocks(p) == p.match /\ p.tamper = "none"
+Unlocks(p) == p.sealed = tried /\ p.tamper = "none"
+Override(f, g) == [k \in Keys |-> IF g[k] # Absent THEN g[k] ELSE f[k]]
 
 TryLocator == /\ phase = "unsealing" /\ i <= Len(pairs)
               /\ IF Unlocks(pairs[i]) THEN haveKey' = TRUE /\ phase' = "decrypting" /\ i' = i
                  ELSE haveKey' = FALSE /\ i' = i + 1 /\ phase' = phase
-              /\ UNCHANGED <<pairs, dataTamper, attr>>
+              /\ UNCHANGED <<pairs, tried, dataTamper, visible, plain, attr>>
 NoLocator  == /\ phase = "unsealing" /\ i > Len(pairs)
-              /\ phase' = "failed" /\ UNCHANGED <<pairs, dataTamper, i, haveKey, attr>>
+              /\ phase' = "failed" /\ UNCHANGED <<pairs, tried, dataTamper, visible, plain, i, haveKey, attr>>
 DecryptVerify == /\ phase = "decrypting"
                  /\ IF dataTamper = "none" THEN phase' = "verified" ELSE phase' = "failed"
-                 /\ UNCHANGED <<pairs, dataTamper, i, haveKey, attr>>
-Commit == /\ phase = "verified" /\ phase' = "committed" /\ attr' = "unlocked"
-          /\ UNCHANGED <<pairs, dataTamper, i, haveKey>>
+                 /\ UNCHANGED <<pairs, tried, dataTamper, visible, plain, i, haveKey, attr>>
+Commit == /\ phase = "verified" /\ phase' = "committed" /\ attr' = Override(attr, plain)
+          /\ UNCHANGED <<pairs, tried, dataTamper, visible, plain, i, haveKey>>
 Next == TryLocator \/ NoLocator \/ DecryptVerify \/ Commit
 NoNext == FALSE /\ UNCHANGED vars
 Spec == Init /\ [][Next]_vars
 
 Done == phase \in {"committed", "failed"}
 SomeGood == \E k \in 1..Len(pairs) : Unlocks(pairs[k])
-RoundTrip == (Done /\ SomeGood /\ dataTamper = "none") => (phase = "committed" /\ attr = "unlocked")
-FailLeavesAttr == phase = "failed" => attr = "locked"
-CommitOnlyIfVerified == attr = "unlocked" => (haveKey /\ dataTamper = "none")
+RoundTrip == (Done /\ SomeGood /\ dataTamper = "none") => (phase = "committed" /\ attr = Override(visible, plain))
+FailLeavesAttr == phase # "committed" => attr = visible
+CommitOnlyIfVerified == phase = "committed" => (haveKey /\ dataTamper = "none" /\ SomeGood)
+\* every entry of the encrypted configuration is present with its real value; nothing else changes
+ExactlyTheOriginal == phase = "committed" => \A k \in Keys : attr[k] = (IF plain[k] # Absent THEN "real" ELSE visible[k])
 FailsWhenItMust == (Done /\ (~SomeGood \/ dataTamper # "none")) => phase = "failed"
 =============================================================================
